@@ -1005,3 +1005,126 @@ _reg19f = register
 def register(R):  # noqa: F811
     _reg19f(R)
     register_from_swc(R)
+
+
+# ---------------------------------------------------------------------------
+# Populations: constructor, iteration, number of populations, chaining
+TREES_FIELD = z3.Function("trees_of_population", _I, _I)  # ghost: the `trees` container of a population (opaque member)
+POP_PROTO = dict(TREES_PROTO)
+POP_PROTO[".trees"] = lambda eng, v: Opaque(TREES_FIELD(v.z), TREES_PROTO)
+
+
+def register_populations(R):
+    from pyvc.values import Obj, zint
+    from swcgeom.core.population import ChainTrees, Population, Populations
+
+    # ------------------------------------------------------------------ Populations.__init__
+    def init_setup(n, labels):
+        def f(S):
+            ps = PList([Opaque(z3.Int(fresh_name(f"p{i}")), TREES_PROTO) for i in range(n)])
+            lab = None
+            if labels is not None:
+                lab = PList([X.StrRef(S.int(f"label{i}").z) for i in range(n if labels == "as-many" else n + 1)])
+            return dict(self=S.obj(Populations), populations=ps, labels=lab, given=ps, given_labels=lab, __ghost__=GHOST)
+
+        return f
+
+    def init_min(E, v, o):
+        s, ps = v["self"], o["given"].items
+        m = to_z3(s.fields["len"], "int")
+        return z3.And(z3.And(*[m <= TLEN(p.z) for p in ps]), z3.Or(*[m == TLEN(p.z) for p in ps]))
+
+    def init_kept(E, v, o):
+        s, ps = v["self"], v["given"]
+        L = s.fields.get("populations")
+        return isinstance(L, PList) and L is not ps and L.items is not None and len(L.items) == len(ps.items) and all(a is b for a, b in zip(L.items, ps.items)) and ps.items == o["given"].items
+
+    def init_labels(E, v, o):
+        s, n = v["self"], len(o["given"].items)
+        L, g = s.fields.get("labels"), v["given_labels"]
+        if not (isinstance(L, PList) and L.items is not None and len(L.items) == n):
+            return False
+        if g is None:
+            return all(x == "" for x in L.items)
+        return L is not g and all(a is b for a, b in zip(L.items, g.items)) and len(g.items) == len(o["given_labels"].items)
+
+    R.add(f"{POP}:Populations.__init__", prop="C19",
+          variants={"one-population": init_setup(1, None), "two-populations": init_setup(2, None), "three-populations-labelled": init_setup(3, "as-many"),
+                    "two-populations-three-labels": init_setup(2, "too-many"), "no-population": init_setup(0, None)},
+          raises={"AssertionError": ("only-when-the-number-of-labels-differs", lambda E, v, o: o["given_labels"] is not None and len(o["given_labels"].items) != len(o["given"].items)),
+                  "ValueError": ("only-for-an-empty-list-of-populations", lambda E, v, o: len(o["given"].items) == 0)},
+          ensures=[("at-least-one-population-and-matching-labels", lambda E, v, o: len(o["given"].items) > 0 and (o["given_labels"] is None or len(o["given_labels"].items) == len(o["given"].items))),
+                   ("len-is-the-minimum-length-of-the-populations", init_min),
+                   ("populations-kept-in-order-in-a-private-list", init_kept),
+                   ("labels-are-the-given-ones-or-empty-strings-one-per-population", init_labels)],
+          notes="fixed numbers of populations (0..3), each of symbolic length; `populations` a list (the code iterates its argument three times)")
+
+    # ------------------------------------------------------------------ num_of_populations / __iter__
+    def pops_obj(S):
+        ps = S.plist("ref", name="populations")
+        ps.proto = POP_PROTO
+        return S.obj(Populations, populations=ps, len=S.int("len"), labels=PList([]))
+
+    R.add(f"{POP}:Populations.num_of_populations", prop="C19", setup=lambda S: dict(self=pops_obj(S)), returns="int",
+          ensures=["number-of-populations :: result == len_(self.populations)"])
+
+    def row(E, v, o):
+        r, ps = v["got"], v["self"].fields["populations"]
+        if not isinstance(r, PList) or r.items is not None:
+            return False
+        m = z3.Int(fresh_name("m"))
+        k = to_z3(v["k"], "int")
+        return z3.And(zint(r.n) == zint(ps.n), z3.ForAll([m], z3.Implies(z3.And(m >= 0, m < zint(ps.n)), z3.Select(r.cols[0], m) == ITEM(z3.Select(ps.cols[0], m), k))))
+
+    R.add(f"{POP}:Populations.__iter__", prop="C19",
+          setup=lambda S: dict(self=pops_obj(S), __ghost__=GHOST),
+          requires=["len-is-a-length :: self.len >= 0"],
+          options=dict(genexp_hook=X.genexp_hook),
+          ghost_exit=lambda E, v, o: X.arbitrary_item(E, v["result"], "Populations.__iter__/item", dict(self=v["self"]), [],
+                                                      [("item-k-is-the-row-of-the-k-th-tree-of-every-population-in-order", row)]),
+          ensures=[("a-lazy-iterator-with-len-rows", _is_lazy_iter("self.len")), CREATION])
+
+    # ------------------------------------------------------------------ Populations.to_population
+    def chain_of(v):
+        r = v["result"]
+        if not (isinstance(r, Obj) and r.cls is Population):
+            return None
+        c = r.fields.get("trees")
+        return c if isinstance(c, Obj) and c.cls is ChainTrees else None
+
+    def members(E, v, o):
+        c, ps = chain_of(v), v["self"].fields["populations"]
+        if c is None or not isinstance(c.fields.get("trees"), PList) or c.fields["trees"].items is not None:
+            return False
+        L = c.fields["trees"]
+        m = z3.Int(fresh_name("m"))
+        return z3.And(zint(L.n) == zint(ps.n), z3.ForAll([m], z3.Implies(z3.And(m >= 0, m < zint(ps.n)), z3.Select(L.cols[0], m) == TREES_FIELD(z3.Select(ps.cols[0], m)))))
+
+    def chain_clause(text):
+        def f(E, v, o):
+            c = chain_of(v)
+            if c is None:
+                return False
+            from pyvc.spec import eval_clause
+
+            return eval_clause(E, text, dict(self=c, result=v["result"]), None, old_vars=o, extra=E.spec_extra)
+
+        return f
+
+    R.add(f"{POP}:Populations.to_population", prop="C19",
+          setup=lambda S: dict(self=pops_obj(S), __ghost__=GHOST),
+          ensures=[("a-population-on-a-chain-with-no-root", lambda E, v, o: chain_of(v) is not None and v["result"].fields.get("root") == ""),
+                   ("members-are-the-populations'-containers-in-order", members)]
+          + [(lab.strip().replace("wf-", "chain/"), chain_clause(txt.strip())) for lab, txt in (c.split("::", 1) for c in WF_CHAIN)]
+          + [("total-length-is-the-sum-of-the-member-lengths(last-prefix-sum)", chain_clause("len_(result) == self.cumsum[len_(self.trees)]")),
+             "at-most-a-probe-of-the-first-tree :: ncalls('ChainTrees.__getitem__') <= 1 and implies(ncalls('ChainTrees.__getitem__') == 1, callarg('ChainTrees.__getitem__', 0, 'key') == 0) and ncalls('Trees.__getitem__') == 0"],
+          notes="any number of populations, each an opaque container of symbolic length; ChainTrees.__init__ and Population.__init__ are inlined, "
+                "ChainTrees.__len__/__getitem__ (the constructor's probe) enter through their contracts")
+
+
+_reg19g = register
+
+
+def register(R):  # noqa: F811
+    _reg19g(R)
+    register_populations(R)
